@@ -139,6 +139,20 @@ def run_c10_source(ctx: Ctx, M: AnnotateModel):
         ctx.ob("C10-R6", "annotate.SpanUpdater.update/pure", not bad,
                "translating an offset must depend on the offset and the bisect side only (state stored under a key that ignores one of "
                f"them makes the result depend on earlier calls): {[norm(b)[:50] for b in bad]}", node=bad[0] if bad else up, mod=m)
+        # R-C10-8: the range index `bisect(offsets, offset) - 1` is -1 for offset 0 with bisect_left; it must be clamped
+        subs = [n for n in walk_local(up) if isinstance(n, ast.Subscript) and norm(n.value) == f"{ps[0]}.updaters"]
+        okidx = bool(subs)
+        for sb in subs:
+            idx = sb.slice
+            if isinstance(idx, ast.Name):
+                defs = [x for x in stmts_local(up.body) if isinstance(x, ast.Assign) and norm(x.targets[0]) == idx.id]
+                idx = defs[0].value if len(defs) == 1 else idx
+            good = isinstance(idx, ast.Call) and dotted(idx.func) == "max" and any(isinstance(a, ast.Constant) and a.value == 0 for a in idx.args) \
+                and any("- 1" in norm(a) for a in idx.args)
+            okidx = okidx and good
+        ctx.ob("C10-R8", "annotate.SpanUpdater.update/index-not-negative", okidx,
+               "`bisect(offsets, offset) - 1` is -1 when nothing lies to the left (offset 0 with bisect_left): unclamped, the *last* range's updater is used and "
+               "the translation is neither monotone nor at the right place", node=subs[0] if subs else up, mod=m)
         uses = {x.id for x in ast.walk(up) if isinstance(x, ast.Name)}
         ctx.ob("C10-R6", "annotate.SpanUpdater.update/uses-side", all(p_ in uses for p_ in ps[1:]),
                "both the offset and the bisect side are used", node=up, mod=m, nontrivial=False)
@@ -153,7 +167,7 @@ def run(ctx: Ctx):
         "over sorted(annotations) and pieces are appended at the tail.  For the source-text clauses only three structural "
         "necessary conditions are decided: R5 the default diff engine is called for the minimal character diff (timelimit=0, "
         "checklines=False, cleanup='No'), R6 SpanUpdater.update is a pure function of (offset, bisect side), R7 starts are "
-        "translated with bisect_right and ends with bisect_left.  The alignment itself (monotonicity, range, exact enclosure) is "
+        "translated with bisect_right and ends with bisect_left, R8 the range index is clamped at 0.  The alignment itself (monotonicity, range, exact enclosure) is "
         "NOT decided: it is a property of values returned by fast_diff_match_patch / difflib and of two bisections over them."
     )
     ctx.trusted = ["the checker (sa/annot.py)", "Python slicing and tuple ordering"]
